@@ -413,22 +413,20 @@ func clonesShareCodeWrappers(c *core.Ctx) {
 	if cloneM == nil || lcI < 0 {
 		core.Undecidedf("VirtualMachine.Clone / loadedCode not found")
 	}
-	sf := p.SSAFunc(cloneM)
 	n := 0
-	for _, b := range sf.Blocks {
-		for _, in := range b.Instrs {
-			mu, ok := in.(*ssa.MapUpdate)
-			if !ok {
-				continue
-			}
-			mt, ok := mu.Map.Type().Underlying().(*types.Map)
-			if !ok {
-				continue
-			}
-			vt, ok := mt.Elem().(*types.Pointer)
-			if !ok || core.NamedOf(vt.Elem()) == nil || core.NamedOf(vt.Elem()).Obj().Name() != "code" {
-				continue
-			}
+	// the table of code wrappers of the new VM, as Clone (or a helper it hands
+	// the work to) fills it: entry by entry in a loop, or by a copier
+	for _, in := range cloneModelOf(p).InitOf(lcI) {
+		if in.Kind != "copy" {
+			continue
+		}
+		if len(in.Updates) == 0 {
+			// maps.Clone: the values are the original's values
+			n++
+			c.Pass("vm.VirtualMachine.Clone|code-wrappers-shared-by-pointer", p.Pos(in.Store.Pos()), "Clone hands the clone the parent's code wrappers themselves (an entry-wise copy of the table by maps.Clone)")
+			continue
+		}
+		for _, mu := range in.Updates {
 			n++
 			fresh := false
 			for _, o := range core.Origins(mu.Value) {
